@@ -151,6 +151,18 @@ Section Show.
     end.
 End Show.
 
+(* T line: the heading pairs of 0..359 x 0..359 on which the regenerated turn table disagrees with the specification
+   (count, and the first pair of every distinct heading difference, at most 12) *)
+Fixpoint first_by_diff (seen : list Z) (l : list (Z * Z)) : list (Z * Z) :=
+  match l with
+  | [] => []
+  | p :: r => let d := ((snd p - fst p) mod 360)%Z in
+              if existsb (Z.eqb d) seen then first_by_diff seen r else p :: first_by_diff (d :: seen) r
+  end.
+Definition line_turn_failures (id : Z) : string :=
+  line "T" id (show_nat (List.length turn_failures) ++ " "
+               ++ show_list (fun p => show_Z (fst p) ++ ">" ++ show_Z (snd p)) (firstn 12 (first_by_diff [] turn_failures))).
+
 Definition case_gen : Type := forall A : Type, (float -> A) -> case_t A.
 
 Definition line_M (id : Z) (mk : case_gen) : string :=
